@@ -1364,12 +1364,28 @@ def r716(rep: Report, ctx: Ctx) -> None:
              ("cmp", PRED, "In", "P:loop.loop_events", "1")]
     expect(rep, "R7.16", fi, effs, "a break event that is an exit of SOME "
            "end event (or directly before the dummy end) stops being a "
-           "break event", name="remove", recv="P:loop.break_events",
-           args=(B,), must=[trig],
+           "break event - once a dummy break has taken its place", name="remove",
+           recv="P:loop.break_events",
+           args=(B,), must=[trig, ("cmp", DUMMY, "In", "P:loop.break_events",
+                                   "1")],
            why="the trigger must quantify existentially over the end "
                "events: with several end events of which only some lead to "
                "the exit the break event is otherwise kept as a leaf of the "
-               "body and also re-attached behind the loop node")
+               "body and also re-attached behind the loop node; and a break "
+               "event none of whose predecessors is an inner event of the "
+               "loop gets no dummy break - dropping it then loses the only "
+               "path to what follows it (defect D11)")
+    from .util import resized_while_iterated
+    bad = resized_while_iterated(ctx, fi)
+    rep.ob("R7.16", "the set of break events is not resized while it is "
+           "iterated", not bad, fi=fi, node=bad[0][1] if bad else fi.node,
+           detail=(f"{bad[0][2]} inside `for .. in "
+                   f"{unparse(bad[0][0].iter)}`: a break event that is "
+                   "dropped without a replacement changes the size of the "
+                   "set and the next step of the iteration raises "
+                   "RuntimeError; one that is replaced makes the visiting "
+                   "order depend on where the new element lands (defect D11)"
+                   if bad else "the loop runs over a snapshot of the set"))
     both = [trig] + inner
     LWL = "get_event_lists_with_loop_events"
     OVL = "get_event_types_and_event_sets_overlap"
